@@ -89,7 +89,7 @@ func newStWorld(cfg stCfg) *stWorld {
 	}
 	// template registers: a root array data slab holding the version number
 	for v := 1; v <= cfg.NVers; v++ {
-		bs := atree.NewBasicSlabStorage(encMode(), decMode(), testutils.DecodeStorable, testutils.DecodeTypeInfo)
+		bs := atree.NewBasicSlabStorage(encMode(), decMode(), testutils.DecodeStorable, decodeTypeInfo)
 		a, err := atree.NewArray(bs, atree.Address{1}, testutils.NewSimpleTypeInfo(42))
 		must(err)
 		for k := 0; k < v; k++ { // version v: v elements, so sizes differ per version
@@ -117,7 +117,7 @@ type stTmpl struct {
 var stTemplates = map[int]stTmpl{}
 
 func (w *stWorld) mkSlab(i, v int) atree.Slab {
-	s, err := atree.DecodeSlab(w.ids[i-1], w.tmpl[v-1], decMode(), testutils.DecodeStorable, testutils.DecodeTypeInfo)
+	s, err := atree.DecodeSlab(w.ids[i-1], w.tmpl[v-1], decMode(), testutils.DecodeStorable, decodeTypeInfo)
 	must(err)
 	return s
 }
@@ -138,7 +138,7 @@ func (w *stWorld) versionOfBytes(b []byte) int {
 			return v + 1
 		}
 	}
-	s, err := atree.DecodeSlab(w.ids[0], b, decMode(), testutils.DecodeStorable, testutils.DecodeTypeInfo)
+	s, err := atree.DecodeSlab(w.ids[0], b, decMode(), testutils.DecodeStorable, decodeTypeInfo)
 	if err != nil {
 		return 999
 	}
